@@ -28,7 +28,7 @@ impl TraitHandler for OrdEnumHandler {
 
         let mut cmp_token_stream = proc_macro2::TokenStream::new();
 
-        let discriminant_type = DiscriminantType::from_ast(ast)?;
+        let (discriminant_type, discriminant_values) = DiscriminantType::from_ast(ast)?;
 
         let mut arms_token_stream = proc_macro2::TokenStream::new();
 
@@ -208,11 +208,8 @@ impl TraitHandler for OrdEnumHandler {
         if arms_token_stream.is_empty() {
             cmp_token_stream.extend(quote!(::core::cmp::Ordering::Equal));
         } else {
-            let discriminant_cmp = quote! {
-                unsafe {
-                    ::core::cmp::Ord::cmp(&*<*const _>::from(self).cast::<#discriminant_type>(), &*<*const _>::from(other).cast::<#discriminant_type>())
-                }
-            };
+            let discriminant_cmp =
+                discriminant_type.create_cmp(ast, discriminant_values.as_deref());
 
             cmp_token_stream.extend(if all_unit {
                 quote! {
